@@ -139,7 +139,7 @@ T* Cabinet<T>::free(const Token &token)
 template <typename T>
 void Cabinet<T>::clear()
 {
-    last_id_ = 0;
+    //! 注意：这里不能重置 last_id_，否则 clear() 之前分配出去的 Token 会与之后分配的 Token 相同
     cells_.clear();
     first_free_ = std::numeric_limits<Pos>::max();
     count_ = 0;
